@@ -44,7 +44,7 @@ Proof. cbv zeta. split; [cbn; auto with arith|]. split; [repeat constructor; dis
 Theorem C19_ecdf_spec : forall obs x,
   ecdf obs x == natQ (length (filter (fun o => Qle_bool o x) obs)) / natQ (length obs) /\
   forall o, In o (filter (fun o => Qle_bool o x) obs) <-> In o obs /\ o <= x.
-Proof. intros obs x. exact (conj (ecdf_spec obs x) (ecdf_count obs x)). Qed.
+Proof. exact ecdf_full_spec. Qed.
 Print Assumptions C19_ecdf_spec.
 
 (* ---- ARMA impulse response with the repaired set_params: psi_0 = 1 and the ARMA recursion, ALL p, q
@@ -129,10 +129,7 @@ Print Assumptions C19_periodogram_value.
    t2sq * var * (a+b)^2 = 1, i.e. t1 * sqrt(t2sq) = mu3 / var^(3/2). *)
 Theorem C19_betabinom_pdf_sums_to_one : forall n a b, 0 < a -> 0 < b ->
   length (bb_pdf n a b) = S n /\ Forall (fun v => 0 <= v) (bb_pdf n a b) /\ sum_list (bb_pdf n a b) == 1.
-Proof.
-  intros n a b Ha Hb. split; [unfold bb_pdf; rewrite map_length, seq_length; reflexivity|].
-  split; [exact (bb_pdf_nonneg n a b Ha Hb)|exact (bb_pdf_sums_to_one n a b Ha Hb)].
-Qed.
+Proof. exact bb_pdf_prob_vector. Qed.
 Print Assumptions C19_betabinom_pdf_sums_to_one.
 
 Theorem C19_betabinom_pdf_entry : forall n a b k, (k <= n)%nat ->
@@ -156,7 +153,7 @@ Theorem C19_betabinom_skew : forall n a b, 0 < a -> 0 < b ->
                           * getQ (bb_pdf n a b) k) (seq 0 (S n)))
   == bb_skew_t1 n a b * bb_var n a b / (a + b) /\
   ((0 < n)%nat -> bb_skew_t2sq n a b * bb_var n a b * ((a + b) * (a + b)) == 1).
-Proof. intros n a b Ha Hb. exact (conj (bb_moment3_spec n a b Ha Hb) (bb_skew_t2sq_spec n a b Ha Hb)). Qed.
+Proof. exact bb_skew_spec. Qed.
 Print Assumptions C19_betabinom_skew.
 
 Example ex_betabinom_instances :
